@@ -44,6 +44,8 @@ def run(chk):
             for nm in parts + [total]:
                 symm.UF_META.pop(nm, None)
             try:
+                if factor:
+                    symm.UF_META.setdefault(factor, (1, 0))      # the correction factor is an opaque callee of the total
                 tv, tpc = value(c, one(total))
                 pv = []
                 ppc = []
@@ -68,9 +70,22 @@ def run(chk):
             # the factor is an opaque callee of the total: find its leaf in the total's expression
             leaves = [r_ for (k_, a_, r_) in c.ex.leaves if k_.replace('uf:', '').split('#')[0] == factor]
             if len(leaves) < 1:
-                chk.record('sum:' + total, 'gap', 'factor %s not found' % factor, family=fam)
-                continue
-            rhs = rhs * leaves[-1]
+                # the factor was inlined into the total by the compiler: execute it on its own (same opaque callees)
+                try:
+                    saved = dict(symm.UF_META)
+                    symm.UF_META.pop(factor, None)
+                    try:
+                        fv, fpc = value(c, one(factor))
+                    finally:
+                        symm.UF_META.clear()
+                        symm.UF_META.update(saved)
+                except Unsupported as e:
+                    chk.record('sum:' + total, 'gap', 'factor %s: %s' % (factor, str(e)[:80]), family=fam)
+                    continue
+                rhs = rhs * fv
+                ppc = ppc + fpc
+            else:
+                rhs = rhs * leaves[-1]
         r, m = chk.prove('sum:' + total, tpc + ppc + [tv != rhs], timeout_ms=60000, family=fam,
                          sample={'obligation': '%s == %s%s for every model (callees uninterpreted)' % (total, ' + '.join(parts), ' * ' + factor if factor else '')})
         if r == 'sat':
